@@ -62,6 +62,8 @@ var variants = []variant{
 	{id: 6, maturity: 3, bip34H: 1, bip65H: 1, bip66H: 1, csvH: 1, segH: 1, tapH: 1, bpr: 2016, subsidyIv: 150, bip34Hash: true},
 	// 7: regtest as shipped with timestamps right after the 2011 genesis (F-C01-a territory)
 	{id: 7, maturity: 3, bip34H: 1, bip65H: 1, bip66H: 1, csvH: 1, segH: 1, tapH: 1, bpr: 2016, subsidyIv: 150, early: true},
+	// 8: 2011 timestamps and no segwit: BIP16 is keyed on the block time alone
+	{id: 8, maturity: 3, bip34H: 1, bip65H: 1, bip66H: 1, csvH: 0, segH: 0, tapH: 0, bpr: 2016, subsidyIv: 150, early: true},
 }
 
 const (
@@ -78,7 +80,14 @@ func (v variant) baseTime() int64 {
 }
 
 // now is the fixed adjusted time of the validating node.
-func (v variant) now() int64 { return v.baseTime() + nowOffsetSecs }
+func (v variant) now() int64 {
+	if v.early {
+		return bip16Switch + 86400 // so that a block may carry a time on either side of the BIP16 switch
+	}
+	return v.baseTime() + nowOffsetSecs
+}
+
+const bip16Switch = 1333238400
 
 func deployment(bit uint8, h int32) chaincfg.ConsensusDeployment {
 	d := chaincfg.ConsensusDeployment{
